@@ -32,8 +32,9 @@ LEVEL = "exploration"
 WORLD_TIMEOUT = 400
 WORLD_PIPE = None
 CONTEXT_OPS = ()
-SALTS = 3
+SALTS = 4
 SCREEN_ATTEMPTS = 6
+SWEEP_N = 110
 
 RULE = (
     "one world = one process history of ~400..1500 scheduled client operations over 2-4 analysis clients (ISAs biased so that "
@@ -72,6 +73,7 @@ PROBES = {
         "map-through-cfg-node",
         "composed-with-conditioned-map",
         "executed-in-perturbed-context",
+        "battery-sweep-after-history",
         "node-cut-map-recomputed",
     ]
 }
@@ -121,7 +123,7 @@ def plan(prop, tier, seed):
     specs = []
     n, steps = (16, 450) if tier == "quick" else (320, 1500)
     for i in range(n):
-        specs.append({"kind": "random", "seed": run_seed(seed, prop, tier, i), "steps": steps, "want_sample": i < 2})
+        specs.append({"kind": "random", "seed": run_seed(seed, prop, tier, i), "steps": steps, "want_sample": i < 2, "family": (i + seed) % len(FAMILIES)})
     # guided layer: polluter x victim spec pairs per ISA; quick = a seeded slice
     k = 0
     for name in ISAS:
@@ -182,7 +184,9 @@ def state_for(m, salt):
     for name, r in sorted(regs.items()):
         if r._is_ext or not r.size or not r._is_reg:
             continue
-        h = int(hashlib.sha256(("%s|%s" % (name, salt)).encode()).hexdigest(), 16)
+        # every fourth state gives all registers the same boundary choice (equal operands:
+        # zero results, equal comparisons), the others choose per register
+        h = int(hashlib.sha256(("%s|%s" % (name if salt % 4 != 3 else "*", salt)).encode()).hexdigest(), 16)
         sel = h % 6
         h >>= 8
         val = [0, 1, (1 << r.size) - 1, 1 << (r.size - 1), (1 << (r.size - 1)) - 1, h & ((1 << r.size) - 1)][sel]
@@ -347,6 +351,7 @@ class World(object):
         self.refd = set()
         self.log = EventLog()
         self.tracked_isas = set()
+        self.ctx_regs = {}
         self.write_hist = []
         self.last_writes = []
         self.survey = {}
@@ -363,6 +368,9 @@ class World(object):
 
         cpu = self.I.LOADED[name]
         mods = [cpu]
+        # the algebra's own module-level nodes (bit0, bit1, ...) are shared by every ISA
+        if "amoco.cas.expressions" in _sys.modules:
+            mods.append(_sys.modules["amoco.cas.expressions"])
         # every module of the ISA's package (env, utils, asm, spec*): tables of shared
         # expression objects live there too (condition codes, addressing-form tables ...)
         pkg = name.rsplit(".", 1)[0] + "."
@@ -401,6 +409,17 @@ class World(object):
                                     self.B.track(y, "global:%s{}[]" % k)
         for k, d in seen_dicts.items():
             self.globals[k] = (d, dict(d))
+        # the architectural registers of this ISA (module-level reg objects of its package)
+        regs = []
+        seen = set()
+        for mod in mods:
+            if not mod.__name__.startswith(pkg) and mod is not cpu:
+                continue
+            for k, v in sorted(vars(mod).items()):
+                if isinstance(v, exp) and v._is_reg and not v._is_ext and 0 < v.size <= 128 and id(v) not in seen:
+                    seen.add(id(v))
+                    regs.append((k, v))
+        self.ctx_regs[name] = [v for _, v in sorted(regs, key=lambda x: x[0])]
 
     def globals_diff(self):
         out = []
@@ -538,7 +557,7 @@ class World(object):
                     if viol is not None:
                         break
                 mp["fresh"] = False
-                if viol is None and "blk" in mp and op.get("route", ">>") == ">>":
+                if viol is None and "blk" in mp and op.get("route", ">>") == ">>" and not op.get("nopristine"):
                     viol = self.pristine_check(mp["blk"], obs_all, mp["blk"]["fp"])
                 st.hit("ops:eval")
             elif k == "compose":
@@ -568,6 +587,8 @@ class World(object):
                     st.hit("probe:compose-observed")
                 except Exception as e:
                     self.maps[op["id"]] = {"key": ("compose",) + a["key"] + b["key"], "m": None, "exc": type(e).__name__, "born": self.step_no, "fresh": True}
+            elif k == "sweep":
+                viol = self.sweep(op)
             elif k == "nodecut":
                 # a node is cut (what cfg.graph does when a later block splits it): the node's
                 # map is recomputed for the shorter block; the map the client got from the
@@ -661,9 +682,8 @@ class World(object):
                 if blk is not None and isinstance(blk["instrs"], list):
                     m = mapper()
                     try:
-                        for (node, owner) in sorted(self.B.tracked.values(), key=lambda x: x[1]):
-                            if owner.startswith("global:") and node._is_reg and not node._is_ext and 0 < node.size <= 128 and owner.count("[") == 0 and owner.count("{") == 0:
-                                m[node] = ~node
+                        for node in self.ctx_regs.get(blk["isa"], ()):
+                            m[node] = ~node
                     except Exception:
                         pass
                     st.hit("probe:executed-in-perturbed-context")
@@ -726,6 +746,51 @@ class World(object):
             viol["signature"] = "heapsim-isa:%s" % viol["class"]
         return viol
 
+    def sweep(self, op):
+        """rebuild and observe a fixed battery of single-instruction blocks of one ISA"""
+        from amoco.cas.mapper import mapper
+
+        name = op["isa"]
+        if name not in self.I.LOADED:
+            return None
+        self.track_isa(name)
+        cpu = self.I.LOADED[name]
+        en = self.I.insn_endian(cpu)
+        S = [s for s in self.I.specs_of_set(cpu.disassemble, 0) if s.pfx is not True]
+        rr = random.Random(op["seed"])
+        idx = list(range(len(S))) if len(S) <= op["n"] else sorted(rr.sample(range(len(S)), op["n"]))
+        # same battery, another order each time: what precedes an entry is part of the history
+        random.Random(op.get("order", 0)).shuffle(idx)
+        self.st.hit("probe:battery-sweep")
+        first_time = ("sweep-done", name, op["seed"]) not in self.seen_count
+        self.seen_count[("sweep-done", name, op["seed"])] = 1
+        # phase 1: every entry is decoded and mapped (in whatever state the process is in now),
+        # phase 2: every map is observed.  Each entry / observation is a step of its own: the
+        # listed sites are undone at the end of each, as everywhere else
+        cl = op.get("client", 0)
+        built = []
+        for j in idx:
+            sp = S[j]
+            for ti, T in enumerate(op["T"]):
+                b = self.I.encode(sp, random.Random((op["seed"] << 12) ^ (j << 1) ^ ti), endian=en if sp.size != 0 else 1, tail=6 if sp.size == 0 else 0, template=T, flip=0.0).hex()
+                bid = "sw%d.%d" % (j, ti)
+                for sub in ({"op": "block", "id": bid, "isa": name, "ins": [b], "addr": 0x1000, "client": cl}, {"op": "map", "id": "m" + bid, "block": bid, "client": cl}):
+                    v = self.step(sub)
+                    if v is not None:
+                        v["detail"]["sweep_entry"] = [sp.format, b]
+                        return v
+                built.append((bid, sp.format, b))
+        for (bid, fmt, b) in built:
+            v = self.step({"op": "eval", "map": "m" + bid, "salts": [0, 3], "client": cl, "nopristine": True})
+            self.maps.pop("m" + bid, None)
+            self.blocks.pop(bid, None)
+            if v is not None:
+                v["detail"]["sweep_entry"] = [fmt, b]
+                return v
+        if not first_time:
+            self.st.hit("probe:battery-sweep-after-history")
+        return None
+
     def soft_reset(self):
         """guided layer only: put tracked module-level nodes and dicts back to
         their import-time values (sensitivity aid, never an oracle)"""
@@ -760,13 +825,15 @@ class World(object):
 # generation
 # ---------------------------------------------------------------------------
 class Gen(object):
-    def __init__(self, r, W):
+    def __init__(self, r, W, family=None):
         I = W.I
         self.I = I
         self.W = W
         fam = [f for f in FAMILIES if all(n in I.LOADED for n in f)]
         nclients = r.choice([2, 3, 3, 4])
         f0 = r.choice(fam)
+        if family is not None and all(n in I.LOADED for n in FAMILIES[family % len(FAMILIES)]):
+            f0 = FAMILIES[family % len(FAMILIES)]  # every family gets a world in every run
         isas = []
         for c in range(nclients):
             if c < 2 or r.random() < 0.5:
@@ -781,6 +848,13 @@ class Gen(object):
         self.specs = {}
         self.hot = {}
         self.pending = []
+        # the sweep of each client ISA: the same single-instruction blocks (a fixed sample of the
+        # ISA's specs on two operand templates) are rebuilt and observed at the start of the
+        # world and again at random moments of the history
+        self.sweeps = {}
+        for n in sorted(set(isas)):
+            self.sweeps[n] = {"op": "sweep", "isa": n, "T": [r.getrandbits(128), r.getrandbits(128)], "n": SWEEP_N, "seed": r.getrandbits(32), "client": 0}
+        self.pending = [dict(v) for _, v in sorted(self.sweeps.items())]
 
     def newid(self, p):
         self.nid += 1
@@ -851,6 +925,8 @@ class Gen(object):
         ci = self.clients.index(c)
         kinds = [("new", 3), ("eval_old", 5), ("rebuild", 3), ("remap", 1.5), ("elsewhere", 1), ("compose", 1.6), ("extend", 2.5), ("str", 1), ("pickle", 0.7), ("exec1", 1.5), ("exec_ctx", 1.5), ("abort", 0.8), ("mode", 0.3)]
         k = weighted(r, kinds)
+        if r.random() < 0.035:
+            return dict(self.sweeps[c["isa"]], client=ci, order=r.getrandbits(32))
         if k == "new" or not c["blocks"]:
             if len(c["blocks"]) >= 12:
                 k = "rebuild"
@@ -947,7 +1023,7 @@ def run(spec):
 
         def g(r, _):
             if gen[0] is None:
-                gen[0] = Gen(r, W)
+                gen[0] = Gen(r, W, spec.get("family"))
             if left[0] <= 0 and not gen[0].pending:
                 return None
             left[0] -= 1
@@ -1063,7 +1139,7 @@ def run_pairs(spec):
                 nid[0] += 1
                 k = nid[0]
                 wrote = False
-                for op in ({"op": "reset"}, {"op": "block", "id": "d%d" % k, "isa": name, "ins": lead + [bp], "addr": 0x1000, "client": 1}, {"op": "map", "id": "md%d" % k, "block": "d%d" % k, "client": 1}, {"op": "exec1", "block": "d%d" % k, "client": 1}, {"op": "exec_ctx", "block": "d%d" % k, "client": 1}):
+                for op in ({"op": "reset"}, {"op": "block", "id": "d%d" % k, "isa": name, "ins": lead + [bp], "addr": 0x1000, "client": 1}, {"op": "map", "id": "md%d" % k, "block": "d%d" % k, "client": 1}, {"op": "exec1", "block": "d%d" % k, "client": 1}, {"op": "exec_ctx", "block": "d%d" % k, "client": 1}, {"op": "eval", "map": "md%d" % k, "salts": list(range(SALTS)), "client": 1}):
                     W.step(op)
                     if [x for x in W.last_writes if x not in W.known]:
                         wrote = True
@@ -1120,10 +1196,13 @@ def run_pairs(spec):
                 {"op": "map", "id": "mp%d" % k, "block": "p%d" % k, "client": 1},
                 {"op": "exec1", "block": "p%d" % k, "client": 1},
                 {"op": "exec_ctx", "block": "p%d" % k, "client": 1},
-                {"op": "eval", "map": "mv%d" % k, "salts": list(range(SALTS)), "client": 0},
+                {"op": "eval", "map": "mp%d" % k, "salts": list(range(SALTS)), "client": 1},
+                # (the victim is rebuilt right after the polluter's last evaluation: whatever that
+                # left behind has not been overwritten by another evaluation yet)
                 {"op": "block", "id": "w%d" % k, "isa": name, "ins": [bv], "addr": 0x1000, "client": 0},
                 {"op": "map", "id": "mw%d" % k, "block": "w%d" % k, "client": 0},
                 {"op": "eval", "map": "mw%d" % k, "salts": list(range(SALTS)), "client": 0},
+                {"op": "eval", "map": "mv%d" % k, "salts": list(range(SALTS)), "client": 0},
             ]
             # each pair is its own little history: forget earlier first-observations
             W.first.clear()
